@@ -119,6 +119,43 @@ fn check_path_inner(ev: &mut Ev, s: &str) -> CaseResult {
                     }
                 }
             }
+            // Noisy spellings of the same category/package - redundant slashes
+            // and '.' segments at different places, some of them as long as each
+            // other - are all equal to the canonical value, hence (Eq is
+            // transitive and symmetric) to this input's value and to each other.
+            if hash_bytes(s.as_bytes()) % 4 == 0 {
+                let noisy: Vec<String> = [
+                    format!("{c}//{p}"), format!("{c}/{p}/"), format!("{c}/./{p}"), format!("{c}/{p}/."), format!("{c}///{p}"),
+                    format!("..//../{c}/{p}"), format!("../..//{c}/{p}"), format!("../../{c}//{p}"), format!("../../{c}/{p}/"),
+                    format!(".././../{c}/{p}"), format!("../.././{c}/{p}"), format!("../../{c}/./{p}"), format!("..//..//{c}//{p}//"),
+                ]
+                .into_iter()
+                .filter(|t| om::pkgpath_rule(t) == Some((c, p)))
+                .collect();
+                let mut vals: Vec<(String, PkgPath)> = vec![];
+                for t in noisy {
+                    ev.eval();
+                    match PkgPath::new(&t) {
+                        Ok(w) => vals.push((t, w)),
+                        Err(_) => return Err(format!("noisy spelling {t:?} of {c}/{p} is rejected").into()),
+                    }
+                }
+                for (t, w) in &vals {
+                    if *w != v || v != *w {
+                        return Err(format!("value differs from PkgPath::new({t:?}), another spelling of {c}/{p}: {v:?} vs {w:?}").into());
+                    }
+                    for (u, x) in &vals {
+                        ev.eval();
+                        ev.count("path/noisy-spelling-pairs");
+                        if w != x {
+                            return Err(format!("PkgPath::new({t:?}) != PkgPath::new({u:?}) although both are {c}/{p}: {w:?} vs {x:?}").into());
+                        }
+                        if std_hash(w) != std_hash(x) {
+                            return Err(format!("PkgPath::new({t:?}) and PkgPath::new({u:?}) are equal but hash differently").into());
+                        }
+                    }
+                }
+            }
             if s != sp_short && s != sp_full {
                 ev.nontrivial(hash_bytes(s.as_bytes()));
             }
@@ -281,6 +318,7 @@ pub fn run(cx: &mut Cx) {
         "workload/decorated",
         "path/relatives",
         "path/equal-values/hash-and-order",
+        "path/noisy-spelling-pairs",
         "depend_words/fields-2",
         "depend_words/fields-3",
         "depend_words/fields-4",
